@@ -132,8 +132,8 @@ pub fn expected_rows(c: &CovCase, model: &Model) -> Result<Vec<u8>, String> {
 }
 
 pub fn run_cov(c: &CovCase, work: &str, uid: &str) -> (Result<(), String>, Vec<u8>) {
-    let inp = write_input(work, uid, &c.recs, "fa");
-    let alt = c.alt.as_ref().map(|a| write_input(work, &format!("{}alt", uid), a, "fa"));
+    let inp = write_input(work, uid, &c.recs, &crate::p_file::container_for(&c.req(), &c.recs));
+    let alt = c.alt.as_ref().map(|a| write_input(work, &format!("{}alt", uid), a, &crate::p_file::container_for(&format!("alt {}", c.req()), a)));
     let prev = c.prev.as_ref().map(|a| write_input(work, &format!("{}prev", uid), a, "fa"));
     let dir = format!("{}/cov_{}", work, uid);
     let _ = std::fs::create_dir_all(&dir);
